@@ -166,6 +166,10 @@ theorem ltf8_stream_total (s : Bytes) : (streamRead "cram.errorReader.ltf8" ltf8
 (repair fixes/C11-11) and `bins[:len(bins)-1]` is only reached with a non-empty `bins` -/
 theorem readBAI_total (s : Bytes) : (readBAI s).isPanic = false := readBAI_total' s
 
+/-- `tabix.ReadFrom` never panics: the name block is only indexed when its length is positive
+(repair fixes/C11-12), and the references are read by the same `internal.ReadIndex` -/
+theorem readTabix_total (s : Bytes) : (readTabix s).isPanic = false := readTabix_total' s
+
 /-! ### non-vacuity (tests) -/
 
 /-- a parser instance: decimal digits only -/
